@@ -15,8 +15,11 @@ cInc == IF G \in {"chain", "missingleaf", "badleaf", "binaryleaf", "headeronly"}
 cFetch == IF G \in {"missingleaf", "binaryleaf"} THEN [AllTrue EXCEPT !["C"] = FALSE] ELSE AllTrue
 cParse == IF G = "badleaf" THEN [AllTrue EXCEPT !["C"] = FALSE] ELSE AllTrue
 \* caller programs
+\* VARIANT = "template": the same program addressed to a TemplateHandler (its includes still go through the terminology loader)
+TOp(o) == IF o = "load" THEN "tload" ELSE IF o = "deferred" THEN "tdeferred" ELSE o
+IsT == IOEnv.VARIANT = "template"
 P == IOEnv.PROG
-cProg == CASE P = "dA_lA" -> << <<"deferred", "A">>, <<"load", "A">> >>
+cProg0 == CASE P = "dA_lA" -> << <<"deferred", "A">>, <<"load", "A">> >>
            [] P = "dA_lB" -> << <<"deferred", "A">>, <<"load", "B">> >>
            [] P = "dA_dB_lA_lA" -> << <<"deferred", "A">>, <<"deferred", "B">>, <<"load", "A">>, <<"load", "A">> >>
            [] P = "dD_dB_lD_lD" -> << <<"deferred", "D">>, <<"deferred", "B">>, <<"load", "D">>, <<"load", "D">> >>
@@ -29,6 +32,7 @@ cProg == CASE P = "dA_lA" -> << <<"deferred", "A">>, <<"load", "A">> >>
            [] P = "dA_tB_rA_lA_lB" -> << <<"deferred", "A">>, <<"touch", "B">>, <<"refresh", "A">>, <<"load", "A">>, <<"load", "B">> >>
            [] P = "dB_rA_lB_lA" -> << <<"deferred", "B">>, <<"refresh", "A">>, <<"load", "B">>, <<"load", "A">> >>
            [] OTHER -> << <<"load", "C">>, <<"deferred", "A">>, <<"load", "C">> >>
+cProg == IF IsT THEN [nn \in DOMAIN cProg0 |-> <<TOp(cProg0[nn][1]), cProg0[nn][2]>>] ELSE cProg0
 \* state of the download cache at the start: empty, warm (a fresh copy of every resource that exists) or
 \* stale (an outdated copy of every resource, also of one that has vanished since)
 CS == IOEnv.CACHE
@@ -45,8 +49,8 @@ SameCached == \A ii, jj \in DOMAIN results : (results[ii][1] = results[jj][1] /\
 CacheSafe == /\ \A uu \in cachew : cFetch[uu]
              /\ \A uu \in URLS : ~cFetch[uu] => cache[uu] = cCache[uu]
 \* a fresh cache copy is never replaced except after a refresh; a stale or missing one is fetched before use
-NeverServesStale == \A uu \in URLS : (loaded[uu] \notin {Absent, NoneV}) => cache[uu] = "fresh"
-Stopped(p) == pc[p] \in {"Done", "HDead", "DDead"}
+NeverServesStale == \A uu \in URLS : (loaded[uu] \notin {Absent, NoneV} \/ tloaded[uu] \notin {Absent, NoneV}) => cache[uu] = "fresh"
+Stopped(p) == pc[p] \in {"Done", "HDead", "DDead", "THDead", "TDDead"}
 \* a thread waiting to be started that never will be is not "blocked": it is not a call of anybody
 \* nor is one that was created and never started (its creator died first, or its table entry was overwritten): joining it raises, it blocks nobody
 IdleThread(p) == p \in Thr /\ pc[p] = "TBegin" /\ tstate[p] \in {"unborn", "created"}
